@@ -545,6 +545,9 @@ def check(ctx, rep):
         "shared failure-isolation / dry-run / diff-agreement rules restricted to these classes."
     )
     rule_line_index(ctx, rep)
+    from .c06 import rule_findings_lookup
+
+    rule_findings_lookup(ctx, rep)
     rule_one_append(ctx, rep)
     rule_cdata_state(ctx, rep)
     rule_xml_verbatim(ctx, rep)
